@@ -95,8 +95,22 @@ def possible (fs : List Flow) (t : Txn) : List String :=
       | .ok ft => selKey (observe ft t).user
       | .error _ => "!").mergeSort (fun a b => a ≤ b)).eraseDups
 
+/-- `quota <id> <url> m= h= q= s=`: a quota with its filter (as a flow record named by the quota id) -/
+def parseQuota (ws : List String) : Option Flow :=
+  match ws with
+  | id :: rest => parseFlow (id :: "s" :: rest)
+  | _ => none
+
+def fmtGroups (qs : List Flow) : String :=
+  String.intercalate "|" (((groupQuotas qs).map fun g =>
+    String.intercalate "+" (g.members.mergeSort (fun a b => a ≤ b))).mergeSort (fun a b => a ≤ b))
+
+def fmtRun (ids : List String) : String := "run=" ++ fmtList ((ids.mergeSort (fun a b => a ≤ b)).eraseDups)
+
 structure RunSt where
   tree : Tree Nat := []
+  quotas : List Flow := []
+  qloaded : Bool := false
   flows : List Flow := []          -- as declared
   ft : Option FTree := none
 
@@ -124,6 +138,22 @@ def runStep (s : RunSt) (line : String) : RunSt × String :=
       ({ s with ft := some ft },
         "r=" ++ String.intercalate "," (rs.map fun r => match r with | none => "ok" | some e => fmtAddErr e))
     | none => (s, "bad-op")
+  | "quota" :: ws =>
+    match parseQuota ws with
+    | some q => ({ s with quotas := s.quotas ++ [q] }, "ok")
+    | none => (s, "bad-op")
+  | ["qload"] =>
+    match build ((quotaSysFlows s.quotas).map (·.1)) with
+    | .ok _ => ({ s with qloaded := true }, "ok g=" ++ fmtGroups s.quotas)
+    | .error e => ({ s with qloaded := false }, "err:add:" ++ fmtAddErr e)
+  | "qreq" :: ws | "qres" :: ws =>
+    match parseReq ((words line).head? == some "qres") ws with
+    | none => (s, "bad-op")
+    | some t =>
+      if !s.qloaded then (s, "no-quotas") else
+      match quotasRun s.quotas t with
+      | .ok ids => (s, fmtRun ids)
+      | .error _ => (s, "no-quotas")
   | "eng" :: rr :: ws =>
     if rr != "req" && rr != "res" then (s, "bad-op") else
     match parseReq (rr == "res") ws with
@@ -159,6 +189,8 @@ structure JudgeSt where
   ins : List (List Part × Nat) := []
   looks : List (String × List Part × List Nat) := []
   engs : List EngObs := []
+  quotas : List Flow := []
+  qround : Option Round := none
   cur : Option Round := none
   rounds : List Round := []                       -- finished rounds, newest first
   bad : Option String := none
@@ -195,6 +227,27 @@ def judgeStep (s : JudgeSt) (op out : String) : JudgeSt :=
       let cfg := (fs.zip rs).filterMap fun (f, r) => if r == "ok" then some f else none
       { s with cur := some { cfg := cfg, reqs := [] } }
     | _, _ => if out == "bad-op" then s else { s with bad := some ("unparsable-output:" ++ pctEnc out) }
+  | "quota" :: ws =>
+    match parseQuota ws with
+    | some q => { s with quotas := s.quotas ++ [q] }
+    | none => s
+  | ["qload"] =>
+    -- the configuration the property speaks about: every quota with its OWN filter, as a system flow named
+    -- by the quota id
+    let s := match s.qround with
+      | some r => { s with rounds := r :: s.rounds, qround := none }
+      | none => s
+    if out.startsWith "ok" then
+      { s with qround := some { cfg := s.quotas.map fun q => { q with kind := .sysStart }, reqs := [] } }
+    else s
+  | "qreq" :: ws | "qres" :: ws =>
+    match s.qround, parseReq ((words op).head? == some "qres") ws, kv (words out) "run" with
+    | some r, some t, some run =>
+      let ids := (splitList run).map pctDec
+      { s with qround := some { r with reqs := r.reqs ++ [⟨op, t, ⟨!ids.isEmpty, [], ids, []⟩⟩] } }
+    | some _, some _, none =>
+      if out == "no-quotas" then s else { s with bad := some ("unparsable-output:" ++ pctEnc out) }
+    | _, _, _ => s
   | "eng" :: rr :: ws =>
     if out == "unsupported" then s else
     match parseReq (rr == "res") ws, kv (words out) "poss", kv (words out) "eng", kv (words out) "n" with
@@ -217,6 +270,9 @@ def judgeFinish (s : JudgeSt) : String :=
   | some b => s!"fail - {b}"
   | none =>
     let s := s.flush
+    let s := match s.qround with
+      | some r => { s with rounds := r :: s.rounds, qround := none }
+      | none => s
     let vs := trieVerdicts s.ins s.looks ++ caseVerdicts s.rounds.reverse ++ engVerdicts s.engs
     -- an unclassified failure always wins; otherwise the first classified one
     match vs.find? (fun v => v.finding == "-") with
